@@ -186,7 +186,7 @@ const chunk = 16
 
 // fullAlphabet says whether base b gets the full 256-value alphabets.
 func fullAlphabet(b *base) bool {
-	return vk.Thorough()
+	return vk.Thorough() && b.named == b.key
 }
 
 // mutate1: every single-byte edit of every base document. Edits that produce
@@ -245,7 +245,7 @@ func (r *runner) mutate1() {
 	}
 	alpha := "substitution by the 8 single-bit flips + the 6 structural symbols \" , } { : space; insertion of the 8 bit flips of the following byte, the 6 structural symbols, a duplicate of the byte, \\ = and newline"
 	if vk.Thorough() {
-		alpha = "substitution by all 255 other byte values; insertion of all 256 byte values"
+		alpha = "substitution by all 255 other byte values, insertion of all 256 byte values (documents re-signed by the other key: the 14/18-symbol alphabets: 8 bit flips + \" , } { : space, + duplicate \\ = newline for insertion)"
 	}
 	shapes := map[string]bool{}
 	for _, b := range r.bases {
@@ -284,6 +284,13 @@ func (r *runner) mutate2() {
 	bases := r.bases
 	if vk.Thorough() {
 		before, after, tail = 8, 6, 6
+		var bs []*base
+		for _, b := range bases {
+			if b.tname == sigTimes[0].name || b.tname == sigTimes[1].name {
+				bs = append(bs, b)
+			}
+		}
+		bases = bs
 	} else {
 		// quick: one signature time, first key, four shapes
 		var bs []*base
@@ -728,13 +735,25 @@ func TestCheck(t *testing.T) {
 		return
 	}
 	r.work = 1
+	total := vk.Deadline()
 	// cheap, structurally targeted scenarios first; the big spaces after
 	for _, ph := range []struct {
 		name string
 		f    func()
-	}{{"signerswap", r.signerswap}, {"resign", r.resign}, {"inject", r.inject}, {"mutate1", r.mutate1}, {"mutate2", r.mutate2}, {"sign", r.signGrammar}} {
+		frac float64 // share of the budget after which this phase stops voluntarily
+	}{{"signerswap", r.signerswap, 1}, {"resign", r.resign, 1}, {"inject", r.inject, 1}, {"mutate1", r.mutate1, 0.5}, {"mutate2", r.mutate2, 0.8}, {"sign", r.signGrammar, 1}} {
 		t0 := time.Now()
+		r.deadline = t0.Add(time.Duration(ph.frac * float64(total.Sub(t0))))
+		if ph.frac == 1 {
+			r.deadline = total
+		}
+		r.cut = false
 		ph.f()
+		if r.cut {
+			sc := res.Scenario(ph.name)
+			sc.Exhaustive = false
+			sc.Note = "deadline reached: some work items of this shard were skipped"
+		}
 		if os.Getenv("VERIF_VERBOSE") != "" {
 			fmt.Printf("phase %-10s %.2fs\n", ph.name, time.Since(t0).Seconds())
 		}
@@ -753,10 +772,6 @@ func TestCheck(t *testing.T) {
 			for _, k := range keys {
 				fmt.Printf("outcome %-10s %8d %s\n", scen, m[k], k)
 			}
-		}
-		if r.cut {
-			sc.Exhaustive = false
-			sc.Note = "deadline reached: some work items of this shard were skipped"
 		}
 	}
 	for _, b := range r.bases[:min(2, len(r.bases))] {
